@@ -32,7 +32,25 @@ T2 = [  # modelled on opts2: long-only value option first, value options in the 
     ("v", "verb",  "bool", False, 4, False),
     ("",  "numeric", "int", False, 0, False),
 ]
-TABLES = [T1, T2]
+# table 3: the modifier lattice.  Every subset of the modifier bits {PREPARSE, DEPRECATED, ARRAY} on the kinds for which
+# ARRAY has no bearing on the value (boolean, abstract - "entirely client-handled" says the header), every subset of
+# {PREPARSE, DEPRECATED} on the value kinds (an ARRAY of values is documented but has no implementation and no defined
+# target layout: not in the universe).  Tuples: (short, long, kind, pre-parse, bit, deprecated, array)
+def _lattice():
+    t = []
+    letters = iter("ABCDEFGHIJKLMNOPQRSTUVWXYZyw")
+    bit = 8
+    for kind, with_arr in (("bool", True), ("int", False), ("str", False), ("args", False), ("abst", True)):
+        for arr in ((False, True) if with_arr else (False,)):
+            for dep in (False, True):
+                for pp in (False, True):
+                    c = next(letters)
+                    t.append((c, "l" + c.lower() + ("x" if c.islower() else ""), kind, pp, bit if kind == "bool" else 0, dep, arr))
+                    if kind == "bool":
+                        bit += 1
+    return t
+T3 = _lattice()
+TABLES = [T1, T2, T3]
 
 # ---- token alphabet ------------------------------------------------------------------------------------------
 TOKENS = [
@@ -55,7 +73,12 @@ BOOLFAM = ["x", "-a", "--agony", "--Agony"] + BOOLWORDS + ["--agony=" + w for w 
 # family: long names that are prefixes of each other / of the typed name (table 2: colormap, color, num, numeric)
 PREFIXFAM = ["x", "7", "--num", "--numeric", "--num=7", "--numeric=7", "--numx=7", "--nu=7", "--color=7", "--colormap=x",
              "--colorm=7"]
-for _t in BOOLFAM + PREFIXFAM:
+# family: one spelling per option of the lattice table
+LATTICEFAM = ["x", "7"] + ["-" + o[0] + {"bool": "", "int": "7", "str": "x", "args": "", "abst": "x"}[o[2]] for o in T3]
+# family: call histories (3+ calls over the same argv): removed / kept / unknown / abstract words
+HISTFAM = ["x", "-ab", "-n7", "-t", "-z"]
+HISTFAMQ = ["x", "-ab", "-t", "-z"]            # quick tier
+for _t in BOOLFAM + PREFIXFAM + LATTICEFAM + HISTFAM:
     if _t not in TOKENS:
         TOKENS.append(_t)
 CORE = ["x", "on", "7", "-ab", "-bf", "-n7", "--agony", "--file=x", "--num",
@@ -68,9 +91,11 @@ def codes(s):
 
 
 def opt(o):
-    sh, lg, kind, pp, bit, dep = o
-    return '[sh |-> %d, lg |-> %s, kind |-> "%s", pp |-> %s, bit |-> %d, dep |-> %s]' % (
-        ord(sh) if sh else 0, codes(lg), kind, "TRUE" if pp else "FALSE", bit, "TRUE" if dep else "FALSE")
+    sh, lg, kind, pp, bit, dep = o[:6]
+    arr = o[6] if len(o) > 6 else False
+    return '[sh |-> %d, lg |-> %s, kind |-> "%s", pp |-> %s, bit |-> %d, dep |-> %s, arr |-> %s]' % (
+        ord(sh) if sh else 0, codes(lg), kind, "TRUE" if pp else "FALSE", bit, "TRUE" if dep else "FALSE",
+        "TRUE" if arr else "FALSE")
 
 
 def idxset(names, table):
@@ -97,18 +122,33 @@ def main():
     L.append(",\n".join("    %s" % codes(t) for t in TOKENS))
     L.append(">>")
     L.append("\\* " + "  ".join("%d:%s" % (k + 1, t.replace(" ", "_")) for k, t in enumerate(TOKENS)))
-    L.append("TokFull  == <<%s, %s>>" % (idxset(FULL, T1), idxset(FULL, T2)))
-    L.append("TokFull3 == <<%s, %s>>" % (idxset(FULL3, T1), idxset(FULL3, T2)))
-    L.append("TokBool  == <<%s, %s>>" % (idxset(BOOLFAM, T1), idxset(BOOLFAM, T2)))
-    L.append("TokPrefix == <<%s, %s>>" % (idxset(PREFIXFAM, T1), idxset(PREFIXFAM, T2)))
-    L.append("TokCore  == <<%s, %s>>" % (idxset(CORE, T1), idxset(CORE, T2)))
-    L.append("TokCore4 == <<%s, %s>>" % (idxset(CORE4, T1), idxset(CORE4, T2)))
+    L.append("TokFull == <<%s, %s, %s>>" % ((idxset(FULL, T1),) * 3))
+    L.append("TokFull3 == <<%s, %s, %s>>" % ((idxset(FULL3, T1),) * 3))
+    L.append("TokBool == <<%s, %s, %s>>" % ((idxset(BOOLFAM, T1),) * 3))
+    L.append("TokPrefix == <<%s, %s, %s>>" % ((idxset(PREFIXFAM, T1),) * 3))
+    L.append("TokCore == <<%s, %s, %s>>" % ((idxset(CORE, T1),) * 3))
+    L.append("TokCore4 == <<%s, %s, %s>>" % ((idxset(CORE4, T1),) * 3))
+    L.append("TokLattice == <<%s, %s, %s>>" % ((idxset(LATTICEFAM, T1),) * 3))
+    L.append("TokHist == <<%s, %s, %s>>" % ((idxset(HISTFAM, T1),) * 3))
+    L.append("TokHistQ == <<%s, %s, %s>>" % ((idxset(HISTFAMQ, T1),) * 3))
+    L.append("TS12 == {1, 2}")
+    L.append("TS1  == {1}")
+    L.append("TS3  == {3}")
+    L.append('Settings == SUBSET {"PRE", "REM"}')
+    L.append("\\* the four usual histories: one normal pass, with or without removal; pre-parse pass + normal pass")
+    L.append('HistCanon == { <<{}>>, <<{"REM"}>>, <<{"PRE"}, {}>>, <<{"PRE", "REM"}, {"REM"}>> }')
+    L.append("\\* every history of 3 (4) calls with every settings combination per call")
+    L.append("Hist3 == [1 .. 3 -> Settings]")
+    L.append("Hist4 == [1 .. 4 -> Settings]")
     owned = {0, 1, 3, 4}
     f1 = sorted({1} | {b for b in range(64) if b not in owned})                 # every foreign bit 1
     f2 = sorted({1} | {b for b in range(64) if b not in owned and b % 2 == 0})  # foreign bits alternate 1/0
+    owned3 = {o[4] for o in T3 if o[2] == "bool"}
+    f3 = sorted({min(owned3) + 1} | {b for b in range(64) if b not in owned3 and b % 2 == 1})
     L.append("\\* bit 1 (-b) starts set; the bits no option owns (2, 5..63 of the unsigned long) are all ones in table 1,")
-    L.append("\\* alternating in table 2, so a stray set AND a stray clear are both visible, also above bit 31")
-    L.append("MCFlags0 == <<{%s},\n             {%s}>>" % (", ".join(map(str, f1)), ", ".join(map(str, f2))))
+    L.append("\\* alternating in tables 2 and 3, so a stray set AND a stray clear are both visible, also above bit 31")
+    L.append("MCFlags0 == <<{%s},\n             {%s},\n             {%s}>>" % (
+        ", ".join(map(str, f1)), ", ".join(map(str, f2)), ", ".join(map(str, f3))))
     L.append("MCInt0   == 5")
     L.append("")
     L.append("\\* one JSON line per finished behaviour; the header line hands tables and initial values to the harness")
